@@ -133,6 +133,12 @@ pub fn run_fault_case(case: &FaultCase, dir: &Path) -> CaseResult {
     rm_rf(&run_root);
     let dry = run_child(&case.work, &run_root, dir, None, &[("WL_NO_SWEEPS", "1")]);
     if dry.status != "ok" {
+        if dry.status.starts_with("hung") {
+            // keep the workload for inspection (scratch/ is not part of the evidence)
+            let d = crate::runner::verif_root().join("scratch");
+            let _ = std::fs::create_dir_all(&d);
+            let _ = std::fs::write(d.join(format!("hung-faultfree-{:016x}.json", crate::util::hash64(&format!("{:?}", case.work)))), serde_json::to_string(&case.work).unwrap_or_default());
+        }
         return done(stats, Some(fail(if dry.status.starts_with("hung") { "harness-child-timeout" } else { died_class(&dry.status) }, format!("fault-free run did not finish: {}", dry.status), json!({}))), false);
     }
     let mut class = CLASSES[case.fault.class as usize % CLASSES.len()];
